@@ -146,6 +146,15 @@ def r18_2(ctx: Ctx) -> RuleResult:
                     rr.bad(handler, r, f"`args.{r.attr}` is passed as `{par.arg}`", construct=f"{par.arg}=args.{r.attr}")
                 else:
                     rr.ok(handler.loc(r), f"{handler.name}: {par.arg}=args.{r.attr}")
+        # a global option that any handler uses must be used by every handler (sibling agreement)
+        used_global = set()
+        for s2 in subs.values():
+            used_global |= {r.attr for r in _arg_reads(s2["handler"]) if r.attr in gd}  # type: ignore[arg-type]
+        for g in sorted(used_global - reads):
+            rr.bad(handler, handler.node, f"the global option `{g}` is honoured by other sub-commands but ignored by "
+                   f"`{name}`", construct=f"{name}: global option {g} ignored")
+        for g in sorted(used_global & reads):
+            rr.ok(handler.loc(), f"{handler.name}: global option `{g}` is used")
         # pretty selects indent; output is the dump target
         dumps = [c for c in calls(handler.node, "dump")]
         if not dumps:
